@@ -549,6 +549,59 @@ EXTRA_TEXT2 = {
            'only).',
 }
 # clauses added from seed waves 8 and 9
+# clauses added with seed wave 10 / refactoring wave 7
+EXTRA_TEXT4 = {
+    'C01': 'A rejected tag candidate costs the scanner exactly one '
+           'character; render_blocks returns the empty text, the single '
+           'piece or the ordered join according to the number of pieces '
+           '(interpreted per size class).',
+    'C02': 'Whether a client was given is decided by identity with None, '
+           'never by its truth value; the stack is searched from the push '
+           'end also when the search loop lives in a helper that is handed '
+           'the stack.',
+    'C03': 'The var branch is judged also when it is a helper with early '
+           'returns and a for/else character test.',
+    'C04': 'No table function is re-bound at module level to a wrapper.',
+    'C05': 'The guard-or-fallback idiom is recognised in its early-return '
+           'form; InstanceDict takes its guard from the namespace '
+           '(structural).',
+    'C06': 'Every section the parser collected for a block tag is compiled '
+           'or rejected on every normally returning path of its '
+           'constructor; a pattern built from template text is never '
+           'applied while compiling.',
+    'C07': 'Tags that name their operand twice (unnamed + name=, unnamed + '
+           'expr=, name= + expr=) or not at all reach no return of '
+           'name_param (scenario evaluation).',
+    'C09': 'Deferred rendering of the selected body counts as the render '
+           'site.',
+    'C10': 'The mapping option alone decides between subscription and '
+           'attribute access; each switch of dtml-in is copied under its '
+           'own presence only.',
+    'C12': 'sequence_ensure_subscription returns the object itself or the '
+           'lazy wrapper, nothing materialised.',
+    'C13': 'No extracted sort key is handed on while it may be None; cmp() '
+           'is three-way (scenario evaluation).',
+    'C14': 'The value of dtml-return does not pass through and/or; handler '
+           'entries are appended in source order inside the walk over the '
+           'clauses.',
+    'C15': 'size= truncates only texts longer than size (three scenarios); '
+           'the null= test is not an arm of the fmt= statement; a find() '
+           'result is not compared with 0 in table functions.',
+    'C16': 'count-<name> is stored on every path after the preset.',
+    'C17': 'First-use memos on the template object are reset by cook / '
+           'munge; no function writes module-level containers; munge takes '
+           'over an empty source and hands mapping / keywords to initvars '
+           'as given.',
+    'C18': 'No render-time callable of a compiled object returns a possibly '
+           'mutable object built while compiling.',
+    'C19': 'The codec of a decode is never chosen by looking at the bytes; '
+           'join_unicode joins the pieces in list order (structural, '
+           'through helpers).',
+    'C20': 'No table keyed by node id is carried through the walk in a '
+           'closure; an id that was read is not tested for truth; a click '
+           'is applied only to a fresh or validated state (typestate).',
+}
+
 EXTRA_TEXT3 = {
     'C02': 'No source on the namespace stack is skipped without being asked '
            'for the name (the only way on is the KeyError / NameError of '
@@ -637,6 +690,11 @@ def main():
             i = t.find('Not decided')
             c['text'] = (t + ' ' + EXTRA_TEXT3[pid]) if i < 0 else (
                 t[:i] + EXTRA_TEXT3[pid] + ' ' + t[i:])
+        if pid in EXTRA_TEXT4:
+            t = c['text']
+            i = t.find('Not decided')
+            c['text'] = (t + ' ' + EXTRA_TEXT4[pid]) if i < 0 else (
+                t[:i] + EXTRA_TEXT4[pid] + ' ' + t[i:])
         if pid in EXTRA_TECH:
             c['technique'] += '; ' + EXTRA_TECH[pid]
         checks.append({
